@@ -31,6 +31,11 @@ def is_line(x):
     return x != '' and NL not in x[:len(x) - 1]
 
 
+def line_body(x):
+    """a line without its final new-line (if it has one)"""
+    return x[:len(x) - 1] if x.endswith(NL) else x
+
+
 def is_split_nl(xs, t):
     n = len(xs)
     return forall_range(0, n, lambda j: is_line(xs[j])) \
@@ -74,6 +79,7 @@ def register_models(M):
     """proof-level definitions of the spec functions above (pyvc.texts)"""
     from pyvc import texts
     M.model(is_line, texts.m_is_line)
+    M.model(line_body, texts.m_line_body)
     M.model(nlines, texts.m_nlines)
     M.model(line_at, texts.m_line_at)
     M.model(lines_of, texts.m_lines_of)
